@@ -58,7 +58,7 @@ func modelVisits(forest []*MNode, branch []string) []Visit {
 func caseC05(c *Ctx) {
 	form := pickArm(c, []string{"callback/md", "callback/root", "iter/root"}, 4, 3, 3)
 	alpha := []int{alphaPlain, alphaFS}[c.Draw(2)]
-	fo := forestOpts{maxRoots: 3, maxExtra: 7, alpha: alpha, distinctRoots: c.Chance(1, 2), maxDepth: 5, maxFan: 4}
+	fo := forestOpts{maxRoots: 3, maxExtra: 7, alpha: alpha, distinctRoots: c.Chance(1, 2), maxDepth: 5, maxFan: 4, shapes: true}
 	if form != "callback/md" {
 		fo.maxRoots = 1
 	}
